@@ -218,6 +218,8 @@ fn eval_mlater<S: MdkStorageProvider, F: Fn(usize) -> S>(mk: &F, line: &str, t: 
         if c == j {
             let r = catch_unwind(AssertUnwindSafe(|| w.clients[1].mdk.process_message(&ann)));
             processed = match r { Ok(r) => mdk_verif_harness::world::result_kind(&r).to_string(), Err(_) => "PANIC".into() };
+            // the sender receives the relay echo of its own announcement at the same point (after j commits)
+            let _ = catch_unwind(AssertUnwindSafe(|| w.clients[0].mdk.process_message(&ann)));
         }
         if c < k && !commit_all(&mut w, 2, c) { fails.push((String::new(), format!("self-update commit {c} was not applied by everyone"))); return "setup-failed".into(); }
     }
